@@ -85,6 +85,10 @@ func Bootstrap(ctx context.Context) error {
 		return fmt.Errorf("could not create signing key: %w", err)
 	}
 
+	// A bootstrap over an existing chain of trust replaces its primary signing key. Remember the
+	// replaced key version so it can be destroyed once the new chain is recorded, as rotation does.
+	previousSigningKeyVersion, _ := c.CA.PrimarySigningKeyVersion(ctx)
+
 	mut := c.CA.NewMutation()
 	mut.SetPrimaryRootKeyVersion(rootKeyVersion)
 	mut.SetPrimarySigningKeyVersion(signingKeyVersion)
@@ -113,6 +117,14 @@ func Bootstrap(ctx context.Context) error {
 		return err
 	}
 	output.Infof(ctx, "Initial manifest created.")
+	if previousSigningKeyVersion != "" && previousSigningKeyVersion != signingKeyVersion {
+		output.Infof(ctx, "Destroying replaced signing key %q", previousSigningKeyVersion)
+		// The new chain is already recorded; the replaced key may legitimately be gone already (for
+		// example after a key wipeout), so failing to destroy it is not a bootstrap failure.
+		if err := c.Manager.DestroyKeyVersion(ctx, previousSigningKeyVersion); err != nil {
+			output.Warningf(ctx, "could not destroy replaced signing key %q: %v", previousSigningKeyVersion, err)
+		}
+	}
 
 	return nil
 }
